@@ -355,6 +355,12 @@ def method_call_facts(prog: Program, interp: Interp, r: DispatcherRoles) -> Tupl
                     ok_dec = True
                 elif isinstance(c_, ast.Call) and 'coroutine' in (dotted(c_.func) or '') or isinstance(c_, ast.Call) and 'awaitable' in (dotted(c_.func) or ''):
                     decided.append(norm(c_))
+            # conditions that stand between the invocation and the await (whatever they test): if none of them looks at the returned
+            # object, something else decides whether the coroutine runs
+            inv_guards = {id(g.src) for m_, _ in invoke for g in guard_edges(cfg, m_)}
+            between = [norm(g.src.ast) for g in guard_edges(cfg, n) if id(g.src) not in inv_guards]
+            if not ok_dec and not decided and between:
+                decided.append(between[0])
             facts['await_decision'] = 'on the returned object' if ok_dec else (decided[0] if decided else 'unconditional')
             if not ok_dec and decided:
                 problems.append(('ONCE-INVOKE', 'await decided by a property of the callable, not by the returned object', n.line,
@@ -452,6 +458,60 @@ def batch_facts(prog: Program, r: DispatcherRoles) -> Tuple[Dict[str, Any], List
             single_calls.append((n, c))
     facts['batch_call_sites'] = len(batch_calls)
     facts['single_call_sites'] = len(single_calls)
+    # the element handlers run when the comprehension that calls them is evaluated: a GENERATOR kept in a local runs them only when (and
+    # if) somebody consumes it — on every path to the end of dispatch it must be consumed, whatever the batch is made of
+    for n, c, comp in batch_calls:
+        if comp is None:
+            continue
+        outer = comp
+        for frag in node_exprs(n):
+            for y in walk_no_defs(frag):
+                if isinstance(y, (ast.GeneratorExp, ast.ListComp, ast.SetComp, ast.DictComp)) and y is not outer and any(z is outer for z in ast.walk(y)):
+                    outer = y
+        a = n.ast
+        if not isinstance(outer, ast.GeneratorExp) or not isinstance(a, (ast.Assign, ast.AnnAssign)) or getattr(a, 'value', None) is not outer:
+            continue
+        tg = a.targets[0] if isinstance(a, ast.Assign) else a.target
+        if not isinstance(tg, ast.Name):
+            continue
+        var = tg.id
+        consuming = []
+        for m in cfg.nodes:
+            if m.ast is None or m is n or m.id not in cfg.reachable(n):
+                continue
+            top = m.ast.iter if m.kind == 'iter' and hasattr(m.ast, 'iter') else m.ast.test if m.kind == 'cond' and hasattr(m.ast, 'test') else m.ast
+            if isinstance(top, (ast.FunctionDef, ast.AsyncFunctionDef, ast.ClassDef)):
+                continue
+
+            def uncond(e: ast.AST, live: bool) -> bool:
+                if isinstance(e, ast.Name) and e.id == var and isinstance(e.ctx, ast.Load):
+                    return live
+                if isinstance(e, ast.IfExp):
+                    return uncond(e.test, live) or uncond(e.body, False) and False or uncond(e.orelse, False) and False
+                if isinstance(e, ast.BoolOp):
+                    return any(uncond(v_, live and i_ == 0) for i_, v_ in enumerate(e.values))
+                if isinstance(e, (ast.Lambda, ast.FunctionDef, ast.AsyncFunctionDef)):
+                    return False
+                return any(uncond(ch, live) for ch in ast.iter_child_nodes(e))
+            # a use that iterates it: *v, list(v) / tuple(v) / sorted(v) / …, `for x in v`, a comprehension over v
+            iterating = False
+            for y in ast.walk(top):
+                if isinstance(y, ast.Starred) and isinstance(y.value, ast.Name) and y.value.id == var:
+                    iterating = True
+                elif isinstance(y, ast.Call) and dotted(y.func) in ('list', 'tuple', 'sorted', 'set', 'frozenset', 'sum', 'any', 'all', 'max', 'min', 'dict') \
+                        and y.args and isinstance(y.args[0], ast.Name) and y.args[0].id == var:
+                    iterating = True
+                elif isinstance(y, ast.comprehension) and isinstance(y.iter, ast.Name) and y.iter.id == var:
+                    iterating = True
+            if m.kind == 'iter' and isinstance(top, ast.Name) and top.id == var:
+                iterating = True
+            if iterating and uncond(top, True):
+                consuming.append(m)
+        if cfg.exit.id in cfg.reachable(n, avoid_nodes=consuming, edge_ok=lambda e: e.label != 'exc'):
+            problems.append(('PER-ELEMENT-ONCE', 'element handlers run lazily and are not always consumed', n.line,
+                             f'`{norm(a)[:100]}` keeps the element handlers in a generator: they run only when `{var}` is iterated, and dispatch can '
+                             f'finish without iterating it (a conditional expression / branch that does not touch `{var}`): for such a batch — one '
+                             f'made only of notifications — no method runs at all'))
     # handler calls hidden in closures defined inside dispatch: results collected by side effect follow completion order
     for g in f.nested.values():
         for x in walk_own(g.node):
